@@ -202,7 +202,13 @@ def make_form(rng):
     if any(not (t["pre"] or t["post"] or t["nb"]) for t in st["terms"]):
         feats.add("scalar_operand")
     # ---- known-defect features, mutually exclusive --------------------------------
-    if kind == "str" and r < 0.10:
+    inter_unsorted = False
+    if kind == "inter" and form["out"] is None:
+        first, srt = once_sorted_first_seen(form["subs"])
+        inter_unsorted = first != srt
+    if inter_unsorted:
+        pass        # this call already carries interleaved-implicit-order: inject nothing else
+    elif kind == "str" and r < 0.10:
         form["eq"] = add_spaces(rng, form["eq"])
         feats.add("K:spaces")
     elif r < 0.20 and N > 0:
